@@ -21,6 +21,7 @@ import (
 	"sync"
 
 	_ "github.com/lmorg/murex/builtins"
+	"github.com/lmorg/murex/builtins/docs"
 	"github.com/lmorg/murex/config/defaults"
 	"github.com/lmorg/murex/lang"
 )
@@ -64,6 +65,12 @@ func initMurex() {
 	initOnce.Do(func() {
 		lang.InitEnv()
 		defaults.Config(lang.ShellProcess.Config, false)
+		if docs.Definition == nil {
+			// murex's package main installs the embedded-docs lookup in an init(); the harness is a
+			// different main package, so without this `murex-docs x` would call a nil function here
+			// (a harness artefact, not murex behaviour). An empty lookup = "no documentation found".
+			docs.Definition = func(string) []byte { return nil }
+		}
 	})
 }
 
